@@ -350,7 +350,7 @@ Qed.
 
 Lemma step_PI sc w tr e w' : PI sc w tr -> step sc w e w' -> PI sc w' (tr ++ [e]).
 Proof.
-  intros HP Hs. destruct Hs as [stage m1 w Hfresh|w|w t ev f Hf].
+  intros HP Hs. destruct Hs as [stage m1 w Hfresh Hactive|w|w t ev f Hf].
   - unfold start_rec. cbn [fst snd].
     pose proof (mod_event_PI sc w tr 0 m1 (start_cb sc stage m1) (KStart stage m1) [] (stage =? 0)) as L.
     cbn zeta in L. rewrite app_nil_r in L. apply L; clear L; try assumption; try apply start_cb_ok.
@@ -410,7 +410,7 @@ Proof.
   destruct (trace_cases sc pre e post E) as [(w1 & w2 & HG & Hs)|(w & tr & now & ms1 & m1 & ms2 & _ & _ & _ & _ & ->)]; [|discriminate].
   destruct (gen_PI sc w1 pre HG) as [_ Hdead]. specialize (Hdead m Hd).
   destruct (gen_WI sc w1 pre HG m) as [(_ & _ & Hshut) _].
-  destruct Hs as [stage m1 w Hfresh|w|w t ev0 f Hf]; try discriminate.
+  destruct Hs as [stage m1 w Hfresh Hactive|w|w t ev0 f Hf]; try discriminate.
   unfold loop_rec in *. cbn [snd e_items e_kind] in *. injection Hk as ->.
   assert (Hdn : forall fcb, (forall s, active (w_mod (x_w s) m) = false -> fcb s = s) ->
                  snd (around sc t m fcb (set_fes w f)) = []).
